@@ -100,7 +100,179 @@ def extract():
         for k in ("namespaceOrder", "userRefsOrder", "dynRefsOrder"):
             t.setdefault(k, [])
 
+    # ---- C15: export decision logic -------------------------------------------------
+    t["pythonBuiltins"] = _transformer_builtins()
+    for key, fn, dflt in (("exportCallLoop", _export_call_loop, []),
+                          ("exportReplaceOrder", _export_replace_order, []),
+                          ("exportDummyFor", _export_dummy_for, []),
+                          ("mxNamespaceOrder", _mx_namespace_order, []),
+                          ("mxDynRefsOrder", _mx_dyn_refs_order, []),
+                          ("mxAllargsOrder", _mx_allargs_order, [])):
+        try:
+            t[key] = fn()
+        except Exception as e:
+            problems.append("%s: pattern not found: %r" % (key, e))
+            t[key] = dflt
+
     return t, problems
+
+
+# ------------------------------------------------------------------------------------------
+# C15: modelx/export (transformer.py, exporter.py) and the reference chains of space.py
+
+def _transformer_builtins():
+    """the table FormulaTransformer.__init__ builds: builtins minus dunder names"""
+    import builtins
+    return sorted(n for n in builtins.__dict__.keys() if n[:2] != '__' or n[-2:] != '__')
+
+
+def _src_of(node):
+    return ast.unparse(node)
+
+
+def _export_call_loop():
+    """statements of the `for` loop in the `__call__` of SpaceTranslator.itemspace_methods, in order"""
+    cls = _class(_parse("modelx/export/exporter.py"), "SpaceTranslator")
+    tmpl = None
+    for node in cls.body:
+        if isinstance(node, ast.Assign) and node.targets[0].id == "itemspace_methods":
+            for sub in ast.walk(node.value):
+                if isinstance(sub, ast.Constant) and isinstance(sub.value, str):
+                    tmpl = sub.value
+    import textwrap
+    code = textwrap.dedent(tmpl).format(args="a", params="a", idx_args="a",
+                                        param_copies="    pass", param_assigns="    pass")
+    call = [n for n in ast.walk(ast.parse(code)) if isinstance(n, ast.FunctionDef) and n.name == "__call__"][0]
+    loops = [n for n in ast.walk(call) if isinstance(n, ast.For) and "_mx_walk" in _src_of(n.iter)]
+    if len(loops) != 1:
+        raise ValueError("loop over _mx_walk not found")
+    tags = []
+    for st in loops[0].body:
+        src = _src_of(st)
+        if isinstance(st, ast.For) and "_mx_roots" in _src_of(st.iter) and "_mx_copy_params" in src:
+            tags.append("copy_params")
+        elif isinstance(st, ast.Expr) and "._mx_copy_refs(" in src:
+            tags.append("copy_refs")
+        elif isinstance(st, ast.Expr) and "._mx_assign_params(" in src:
+            tags.append("assign_params")
+        elif isinstance(st, ast.Expr) and "._mx_roots.extend(" in src:
+            tags.append("roots_extend")
+        elif isinstance(st, ast.Expr) and "._mx_roots.append(" in src:
+            tags.append("roots_append")
+        else:
+            raise ValueError("unknown statement in __call__ loop: " + src[:60])
+    return tags
+
+
+def _export_replace_order():
+    """the tests under `if symbol.is_global():` in FormulaTransformer.should_replace, in order"""
+    cls = _class(_parse("modelx/export/transformer.py"), "FormulaTransformer")
+    fn = _method(cls, "should_replace")
+    target = [n for n in ast.walk(fn) if isinstance(n, ast.If) and _src_of(n.test) == "symbol.is_global()"]
+    if len(target) != 1:
+        raise ValueError("if symbol.is_global() not found")
+    tags = []
+
+    def test_tag(test):
+        src = _src_of(test)
+        if src == "symbol_top":
+            return "top"
+        if src == "node.value in self.builtins":
+            return "builtin"
+        raise ValueError("unknown test " + src)
+
+    def returns(body, what):
+        return len(body) == 1 and isinstance(body[0], ast.Return) and _src_of(body[0].value) == what
+
+    def walk(stmts):
+        for st in stmts:
+            if isinstance(st, ast.Assign):
+                if _src_of(st) != "symbol_top = self.name_to_symbol[0].get(node.value, None)":
+                    raise ValueError("unknown assignment " + _src_of(st))
+            elif isinstance(st, ast.If):
+                tag = test_tag(st.test)
+                if tag == "top" and not returns(
+                        st.body, "(symbol_top.is_global() or symbol_top.is_local()) and symbol_top.is_assigned()"):
+                    raise ValueError("top branch changed")
+                if tag == "builtin" and not returns(st.body, "False"):
+                    raise ValueError("builtin branch changed")
+                tags.append(tag)
+                if st.orelse:
+                    if len(st.orelse) == 1 and isinstance(st.orelse[0], ast.If):
+                        walk(st.orelse)
+                    elif returns(st.orelse, "True"):
+                        tags.append("else")
+                    else:
+                        raise ValueError("unknown else branch")
+            elif isinstance(st, ast.Return) and _src_of(st.value) == "True":
+                tags.append("else")
+            else:
+                raise ValueError("unknown statement " + _src_of(st)[:60])
+    walk(target[0].body)
+    if not returns(target[0].orelse, "False"):
+        raise ValueError("non-global branch changed")
+    return tags
+
+
+def _export_dummy_for():
+    """containers for whose names SpaceTranslator._get_class_def emits `name = None` lines"""
+    cls = _class(_parse("modelx/export/exporter.py"), "SpaceTranslator")
+    fn = _method(cls, "_get_class_def")
+    res = []
+    for st in fn.body:
+        if isinstance(st, ast.For) and "lines.append(k + ' = None')" in _src_of(st):
+            it = _src_of(st.iter)
+            m = [c for c in ("refs", "cells", "spaces") if it == "space.%s.items()" % c]
+            if not m:
+                raise ValueError("unknown container " + it)
+            res.append(m[0])
+    if not res:
+        raise ValueError("no dummy assignment loop")
+    return res
+
+
+def _chain_elems(call):
+    """the list literal among the arguments of an ImplChainMap/RefChainMap call"""
+    for a in list(call.args) + [k.value for k in call.keywords]:
+        if isinstance(a, ast.List):
+            return a.elts
+    raise ValueError("no list argument")
+
+
+def _mx_namespace_order():
+    tree = _parse("modelx/core/space.py")
+    cls = _class(tree, "BaseSpaceImpl")
+    for node in ast.walk(cls):
+        if isinstance(node, ast.Call) and _src_of(node.func) == "ImplChainMap" and node.args \
+                and isinstance(node.args[0], ast.Constant) and node.args[0].value == "namespace":
+            ids = [k.value for k in node.keywords if k.arg == "map_ids"][0]
+            names = [e.value for e in ids.elts]
+            elems = [_src_of(e) for e in _chain_elems(node)]
+            want = {"cells": "self._cells", "refs": "self._refs", "spaces": "self._named_spaces"}
+            if elems != [want[n] for n in names]:
+                raise ValueError("namespace maps and map_ids differ: %s %s" % (elems, names))
+            return names
+    raise ValueError("namespace ImplChainMap not found")
+
+
+def _mx_dyn_refs_order():
+    cls = _class(_parse("modelx/core/space.py"), "DynamicSpaceImpl")
+    fn = _method(cls, "_init_refs")
+    ret = [n for n in ast.walk(fn) if isinstance(n, ast.Return)][0]
+    names = {"*self._allargs.maps": "allargs", "self._own_refs": "own_refs", "self._sys_refs": "sys_refs",
+             "self._dynbase_refs": "dynbase_refs", "self.model._global_refs": "global_refs"}
+    return [names[_src_of(e)] for e in _chain_elems(ret.value)]
+
+
+def _mx_allargs_order():
+    cls = _class(_parse("modelx/core/space.py"), "DynamicSpaceImpl")
+    fn = _method(cls, "_init_allargs")
+    for node in ast.walk(fn):
+        if isinstance(node, ast.If) and "ItemSpaceImpl" in _src_of(node.test):
+            lst = node.body[0].value
+            names = {"self._arguments": "own", "*self.parent._allargs.maps": "parent"}
+            return [names[_src_of(e)] for e in lst.elts]
+    raise ValueError("ItemSpaceImpl branch not found")
 
 
 def _attr_name(e):
@@ -288,6 +460,13 @@ def render(t):
         "def instructionMethods : List String := " + _lean_str_list(t["instructionMethods"]),
         "/-- instructions executed while parsing (PriorityID.AT_PARSE) -/",
         "def atParseMethods : List String := " + _lean_str_list(t["atParseMethods"]),
+        "def pythonBuiltins : List String := " + _lean_str_list(t["pythonBuiltins"]),
+        "def exportCallLoop : List String := " + _lean_str_list(t["exportCallLoop"]),
+        "def exportReplaceOrder : List String := " + _lean_str_list(t["exportReplaceOrder"]),
+        "def exportDummyFor : List String := " + _lean_str_list(t["exportDummyFor"]),
+        "def mxNamespaceOrder : List String := " + _lean_str_list(t["mxNamespaceOrder"]),
+        "def mxDynRefsOrder : List String := " + _lean_str_list(t["mxDynRefsOrder"]),
+        "def mxAllargsOrder : List String := " + _lean_str_list(t["mxAllargsOrder"]),
         "end MxModel.Generated",
         "",
     ]
